@@ -753,7 +753,7 @@ static void cmd_aadd(int nt, char **t) { int r; r = nt > 3 ? array_list_add(AL(t
 static void cmd_aput(int nt, char **t) { int r; r = nt > 4 ? array_list_put_idx(AL(t[1]), SZ(t[2]), H[hidx(t[3])]) : json_object_array_put_idx(H[hidx(t[1])], SZ(t[2]), H[hidx(t[3])]); ob_printf(&out, "= %d", r); emit_dlog(); }
 static void cmd_ains(int nt, char **t) { int r; r = nt > 4 ? array_list_insert_idx(AL(t[1]), SZ(t[2]), H[hidx(t[3])]) : json_object_array_insert_idx(H[hidx(t[1])], SZ(t[2]), H[hidx(t[3])]); ob_printf(&out, "= %d", r); emit_dlog(); }
 static void cmd_adel(int nt, char **t) { int r; r = nt > 4 ? array_list_del_idx(AL(t[1]), SZ(t[2]), SZ(t[3])) : json_object_array_del_idx(H[hidx(t[1])], SZ(t[2]), SZ(t[3])); ob_printf(&out, "= %d", r); emit_dlog(); }
-static void cmd_ashrink(int nt, char **t) { int r; r = nt > 3 ? array_list_shrink(AL(t[1]), (size_t)L(t[2])) : json_object_array_shrink(H[hidx(t[1])], (int)L(t[2])); ob_printf(&out, "= %d", r); emit_dlog(); }
+static void cmd_ashrink(int nt, char **t) { int r; r = nt > 3 ? array_list_shrink(AL(t[1]), SZ(t[2])) : json_object_array_shrink(H[hidx(t[1])], (int)L(t[2])); ob_printf(&out, "= %d", r); emit_dlog(); }
 static void cmd_aget(int nt, char **t) { int hd = hidx(t[3]); struct json_object *v = json_object_array_get_idx(H[hidx(t[1])], SZ(t[2])); (void)nt; H[hd] = v; Hset[hd] = 1; ob_printf(&out, "= %ld %d", uid_of(v), v == NULL); }
 /* ASUM <harr> -> = len=<n> cap=<size> nonnull=<count> uidsum=<sum of uids> first=<index of first non-null | -1> last=<index of last non-null | -1>   (whole-array digest for huge arrays) */
 static void cmd_asum(int nt, char **t)
